@@ -1,12 +1,12 @@
 package props
 
 import (
-	"github.com/skx/evalfilter/v2/object"
-	"regexp"
 	"bytes"
 	"context"
 	"encoding/json"
 	"fmt"
+	"github.com/skx/evalfilter/v2/object"
+	"regexp"
 	"sort"
 	"strings"
 	"testing"
